@@ -615,6 +615,34 @@ def r4_conformance(ctx):
               (by_name_only[0].where() if by_name_only else f.where()), {'whole_gate_test': whole, 'name_only_comparisons': len(by_name_only)})
 
 
+def r4b_conformance_whole_elements(ctx):
+    """... and the bound's submodules and connections as declared: the membership tests of Node::conform_to compare whole elements (a
+    submodule with its complete type tree, a connection with both endpoints and its link) — a comparison of selected components (name
+    and type symbol) accepts a different instantiation of the same generic type"""
+    ctx.set_rule('C18.R4')
+    P = ctx.P
+    f = P.fns.get('des_net_utils::ndl::tree::Node::conform_to')
+    if f is None:
+        return
+    scope = _closures_rec_of(P, f) if '_closures_rec_of' in globals() else [f] + P.closures_of(f)
+    if f not in scope:
+        scope = [f] + list(scope)
+    ELEM = ('tree::Submodule', 'tree::Connection', 'tree::ConnectionEndpoint')
+    part, whole = [], 0
+    for g in scope:
+        for s_ in g.calls():
+            if s_.name.split('::')[-1] not in ('eq', 'ne') or len(s_.args) < 2:
+                continue
+            ops = [peel(strip_refs(peel(g.expr_operand(a, s_.b, 'T')))) for a in s_.args[:2]]
+            if any(o[0] == 'field' and str(o[3] if len(o) > 3 else '').endswith(ELEM) for o in ops):
+                part.append(s_)
+            elif s_.argtys and any(e in s_.argtys[0] for e in ELEM):
+                whole += 1
+    ctx.floor('whole-element comparisons in Node::conform_to', whole, 1)
+    ctx.check(not part, 'conformance-compares-whole-elements', "Node::conform_to looks for the bound's submodules and connections as declared (whole elements, not selected components)",
+              part[0].where() if part else f.where(), [s_.name for s_ in part][:3])
+
+
 def _closure_over_gates(P, f, g):
     """closure g (of f) is the callback of a traversal over a `gates` collection"""
     if g is f:
@@ -706,6 +734,32 @@ def r6_links_become_channels(ctx):
         ctx.check(from_link and built and not other and not conds, 'link-iff-channel',
                   'every described link becomes a channel with its parameters (Some link => Some(Channel::new(ChannelMetrics::from(link))), None => no channel), whatever the parameter values',
                   s.where(), {'from_link': from_link, 'channel_built': built, 'other_option_ops': other, 'conditions': [show_atom(a) for a in conds]})
+
+
+def r6b_link_parameters_unchanged(ctx):
+    """... and the channel gets the link's parameters as described: each of bitrate / latency / jitter of the ChannelMetrics built from a
+    link is computed from the link's field of the same name alone (a unit conversion) — not combined with, capped by or defaulted from
+    another parameter"""
+    ctx.set_rule('C18.R6')
+    P = ctx.P
+    n = 0
+    for g in P.fn_list:
+        if g.kind == 'promoted' or not g.key.startswith(('des::net::ndl', '<des::net::')):
+            continue
+        for b in sorted(g.reachable()):
+            for i, st in enumerate(g.stmts(b)):
+                if st['k'] != 'assign' or st['r']['k'] != 'agg' or not str(st['r'].get('adt', '')).endswith('channel::ChannelMetrics'):
+                    continue
+                comp = dict(zip(st['r'].get('fields', []), [g.expr_operand(o, b, i) for o in st['r']['ops']]))
+                srcs = {nm: {x[2] for x in walk(v) if x[0] == 'field' and str(x[3] if len(x) > 3 else '').startswith('des_net_utils::ndl::') and 'Link' in str(x[3])} for nm, v in comp.items()}
+                if not any(srcs.values()):
+                    continue        # not built from a described link
+                n += 1
+                for nm in ('bitrate', 'latency', 'jitter'):
+                    if nm in comp:
+                        ctx.check(srcs[nm] == {nm}, 'link-parameter-unchanged:%s' % nm, "a channel's %s is the described link's %s, converted, nothing else" % (nm, nm), g.where(b),
+                                  {'computed_from': sorted(srcs[nm]), 'value': show(comp[nm])[:120]})
+    ctx.floor('ChannelMetrics built from a described link', n, 1)
 
 
 def r7_dependency_order(ctx):
@@ -851,9 +905,11 @@ def run(ctx):
     r9_empty_cluster_rejected(ctx)
     r8_position_stack(ctx)
     r6_links_become_channels(ctx)
+    r6b_link_parameters_unchanged(ctx)
     r7_dependency_order(ctx)
     r1_panic_inventory(ctx)
     r2_cardinality_table(ctx)
     r3_substitution(ctx)
     r4_conformance(ctx)
+    r4b_conformance_whole_elements(ctx)
     r5_instantiation_naming(ctx)
